@@ -246,11 +246,11 @@ class ElementList(MutableSequence):
             self.remove(child)
         elif not self._can_add_child(child) or child in self.list:
             return
+        if by_name_index == -1:
+            # keep the children having the same name in the order they have in the list
+            by_name_index = len([c for c in self.list[:index] if c.name == child.name])
         try:
-            if by_name_index == -1:
-                self.indexes[child.name].append(child)
-            else:
-                self.indexes[child.name].insert(by_name_index, child)
+            self.indexes[child.name].insert(by_name_index, child)
         except KeyError:
             self.indexes[child.name] = [child]
         self.list.insert(index, child)
